@@ -131,20 +131,10 @@ theorem C06_bytes (b : Bytes) (m : Map) (n : Nat) (h : read b = .ok m n) :
 
 /-! ### the same as a function: `write m = normalise (consumed bytes)` -/
 
-/-- overwrite the four bytes at `off` -/
-def setWord (bs : Bytes) (off : Nat) (v : Nat) : Bytes := bs.take off ++ encU32 v ++ bs.drop (off + 4)
-
 /-- what the writer normalises in a file that reads as `m`: the saved-game word (offset 4) becomes 0/1 and the word after
     the tile-group count (8 bytes of count + word, then the groups, end the file) becomes `count − 1` -/
 def normalise (m : Map) (bs : Bytes) : Bytes :=
   setWord (setWord bs 4 (if m.savedGame then 1 else 0)) (bs.length - (m.groups.flatMap encGroup).length - 4) (m.groups.length - 1)
-
-theorem setWord_mid (a w c : Bytes) (v : Nat) (hw : w.length = 4) : setWord (a ++ w ++ c) a.length v = a ++ encU32 v ++ c := by
-  unfold setWord
-  have e : a ++ w ++ c = a ++ (w ++ c) := List.append_assoc _ _ _
-  rw [e, List.take_left' rfl]
-  have hl : a.length + 4 = (a ++ w).length := by simp [hw]
-  rw [hl, ← e, List.drop_left' rfl]
 
 theorem C06_bytes_normalise (b : Bytes) (m : Map) (n : Nat) (h : read b = .ok m n) :
     write m = .ok (normalise m (b.take n)) := by
